@@ -11,7 +11,7 @@ FamsAll   == {4, 6}
 Fams4     == {4}
 PlsAll    == {"ntp", "short", "badreq", "data"}
 \* (under the mock regime the key-mismatch classes are all the same key)
-ReqAuthsAll == AuthKinds \ {"keyOtherSrv", "keyOtherCli", "keyOtherIA"}
+ReqAuthsAll == AuthKinds \ {"keyOtherSrv", "keyOtherCli", "keyOtherIA", "keyPrevEpoch", "keyNextEpoch"}
 \* what the network may do to a reply
 RespMutsAll == {"pass", "strip", "macFlip", "covHdr", "covPath", "covPld", "tsFlip", "rsvFlip", "uncovFlip",
                 "spiFlip", "algoFlip"}
@@ -31,6 +31,17 @@ ReqAuthsK == {"valid", "keyOtherSrv", "keyOtherCli", "keyOtherIA"}
 RespMutsK == {"pass"}
 CHostsK3 == {"C"}
 ReqAuthsK3 == {"valid", "keyOtherSrv"}
+\* ---- time and key epochs: one client, one server host; what varies is when each
+\* request arrives (Advance: every instant of up to three epochs of three instants:
+\* first = NotBefore, middle, last = NotAfter), which epoch's key its MAC was computed
+\* with, and hence what the listener's cache holds when it arrives (nothing / the key
+\* of the same epoch / of the previous one / of an older one)
+CIAsE     == {"iaC"}
+CHostsE   == {"C"}
+DHostsE   == {"S"}
+ReqAuthsE == {"valid", "keyPrevEpoch", "keyNextEpoch"}
+\* ... and with a second server host (the cache entry may be another host's)
+ReqAuthsE2 == {"valid", "keyPrevEpoch", "keyNextEpoch", "keyOtherSrv"}
 \* only clients that authenticate are of interest here
 KeysOnly == cauth
 \* a sequence = the datagrams handled so far plus the one just finished
